@@ -67,12 +67,16 @@ class Rx:
                 yield from self.walk(av)
 
     def flat(self, sub=None):
-        """Top-level sequence with capturing groups spliced in (no branches)."""
+        """Top-level sequence with capturing groups spliced in (no branches); a fixed repeat `X{n}` (n <= 8) is written out."""
         sub = self.parsed if sub is None else sub
         out = []
         for op, av in sub:
             if op is C.SUBPATTERN:
                 out.extend(self.flat(av[3]))
+            elif op in (C.MAX_REPEAT, C.MIN_REPEAT) and av[0] == av[1] and 1 <= av[0] <= 8:
+                inner = self.flat(av[2])
+                for _ in range(av[0]):
+                    out.extend(inner)
             else:
                 out.append((op, av))
         return out
@@ -100,6 +104,22 @@ def rx_from_call(repo, module, call):
     if flags_e is None and len(call.args) > pos:
         flags_e = call.args[pos]
     return Rx(pat, fold_flags(flags_e), call)
+
+
+def rx_from_method_call(repo, module, call):
+    """(Rx, shift) for `re.<f>(pattern, ...)` (shift 0) or `<NAME>.<f>(...)` where NAME is a module-level
+    `re.compile(pattern[, flags])` (shift 1: the remaining arguments start one position earlier); None otherwise."""
+    rx = rx_from_call(repo, module, call)
+    if rx is not None:
+        return rx, 0
+    f = call.func
+    if isinstance(f, ast.Attribute) and f.attr in RE_FUNCS and isinstance(f.value, ast.Name):
+        v = module.assigns.get(f.value.id)
+        if isinstance(v, ast.Call) and dotted(v.func) == 're.compile':
+            rx = rx_from_call(repo, module, v)
+            if rx is not None:
+                return rx, 1
+    return None
 
 
 def class_matches(item, ch, ignorecase=False):
